@@ -434,13 +434,9 @@ fn tx_valid(ops: &[Op], rc: bool, append_only: bool) -> bool {
 	})
 }
 
-/// A rejected transaction that contained a tree insertion has already claimed value slots when it
-/// is rejected (known finding F7): the entry count of such histories is judged by the oracle only.
-fn count_observable(c: &Case) -> bool {
-	!c.steps.iter().any(|s| match s {
-		Step::Commit(ops) => !tx_valid(ops, c.rc, c.append_only) && ops.iter().any(|o| matches!(o, Op::Insert(..))),
-		_ => false,
-	})
+/// Since repair F7 a rejected transaction claims nothing: the entry count is compared in every history.
+fn count_observable(_c: &Case) -> bool {
+	true
 }
 
 fn case_tokens(c: &Case) -> Vec<u64> {
